@@ -71,6 +71,7 @@ static void drainPeer(Cm* m, long limit = -1) {
   for (;;) {
     size_t want = TMPSZ; if (limit >= 0) { if (limit == 0) return; if ((size_t)limit < want) want = (size_t)limit; }
     long r = ns::realRecv(m->pfd, g_tmp, want, 0);
+    if (m->origin != 0) su::quickAck(m->pfd);
     if (r < 0) { if (errno == EINTR) continue; if (errno == EAGAIN || errno == EWOULDBLOCK) return; m->peerEof = true; return; }
     if (r == 0) { m->peerEof = true; return; }
     u64 off = 0;
@@ -373,6 +374,8 @@ static void callbackPrologue(Cm* m, const char* name) {
   m->inBatch = false;
 }
 
+static void settlePeer(Cm* m);
+
 void CB::onRead() {
   callbackPrologue(m, "onRead");
   cnt("onRead"); ++m->onReadCount;
@@ -411,6 +414,9 @@ void CB::onClosed() {
   if (!m->expectClosed) fail("Server.Client.onClosed/unexpected", "onClosed delivered to client %d although no send or recv on it failed", m->id);
   if (m->closedSeen) fail("Server.Client.onClosed/twice", "onClosed delivered twice to client %d", m->id);
   m->closedSeen = true;
+  // TCP: closing a socket that still holds unread inbound bytes is an abortive close (RST) - the kernel then discards what it has accepted from send() but not yet
+  // delivered. The application (harness) therefore lets the peer receive what is in flight before it closes the client.
+  if (m->origin != 0) { drainPeer(m); settlePeer(m); }
   setctx("Server.remove(Client)/in-onClosed");
   g_srv->remove(*m->c);
   m->removed = true; ns::unregisterFd(m->fd);
@@ -508,13 +514,13 @@ static Server::Client::ICallback* freshClient(Server::Client& client, int pfd) {
   cnt(f.origin == 1 ? "onAccepted" : "onConnected");
   hist.addf("  %s -> client%d, the callback does: %s\n", cbn, id, FNAME[f.act]);
   int saved = g_venue; g_venue = f.origin == 1 ? V_ONACCEPTED : V_ONCONNECTED;
-  Op w0 = { K_WRITE, id, f.size[0], f.post[0] }, w1 = { K_WRITE, id, f.size[1], f.post[1] }, su = { K_SUSPEND, id, 0, 0 };
+  Op w0 = { K_WRITE, id, f.size[0], f.post[0] }, w1 = { K_WRITE, id, f.size[1], f.post[1] }, sus = { K_SUSPEND, id, 0, 0 };
   int nw = 0; bool susp = false;
   switch (f.act) {
   case F_WRITE: execOp(m, w0); nw = 1; break;
-  case F_SUSPEND: execOp(m, su); susp = true; break;
-  case F_SUSPEND_WRITE: execOp(m, su); execOp(m, w0); nw = 1; susp = true; break;
-  case F_WRITE_SUSPEND: execOp(m, w0); execOp(m, su); nw = 1; susp = true; break;
+  case F_SUSPEND: execOp(m, sus); susp = true; break;
+  case F_SUSPEND_WRITE: execOp(m, sus); execOp(m, w0); nw = 1; susp = true; break;
+  case F_WRITE_SUSPEND: execOp(m, w0); execOp(m, sus); nw = 1; susp = true; break;
   case F_WRITE_WRITE: execOp(m, w0); execOp(m, w1); nw = 2; break;
   default: break;
   }
@@ -542,7 +548,7 @@ Server::Client::ICallback* ECB::onConnected(Server::Client& client) {
     int fd = accept4(g_rawListen, 0, 0, SOCK_CLOEXEC);
     if (fd < 0) { if (errno == EINTR) continue; if (!su::waitReady(g_rawListen, POLLIN)) break; continue; }
     su::lingerReset(fd, true);
-    if (su::peerPort(fd) == f.rawPort) { su::setNonBlock(fd); pfd = fd; } else close(fd);
+    if (su::peerPort(fd) == f.rawPort) { su::setNonBlock(fd); su::tcpFast(fd); pfd = fd; } else close(fd);
   }
   if (pfd < 0) harnessBug("the raw listener has no connection from port %u", (unsigned)f.rawPort);
   return freshClient(client, pfd);
@@ -558,7 +564,7 @@ static Cm* freshPhase(Rng& r, int origin, int act, long s0, long s1) {
     for (int attempt = 0; ; ++attempt) {
       setctx("Server.listen"); f.l = g_srv->listen(Socket::loopbackAddress, 0, g_lcb); setctx("driver");
       if (f.l) { f.sfd = ((Socket*)(void*)f.l)->s; lport = su::localPort(f.sfd); }
-      if (f.l && (f.rawFd = su::rawConnect(lport, g_kernel ? 1 : 0)) >= 0) break;   // kernel mode: minimal receive window at the peer as well
+      if (f.l && (f.rawFd = su::rawConnect(lport)) >= 0) break;
       if (f.l) { g_srv->remove(*f.l); f.l = 0; }
       if (attempt >= 200) harnessBug("cannot set up a loopback listener with a raw connection: %s", strerror(errno));
       su::sleepUs(2000);
@@ -704,9 +710,50 @@ static void planCase(long idx, bool withErr) {
   endCase(fp, nontrivial);
 }
 
+// enumerated: origin (accepted / connected) x action of the accept / connect callback x size class x every outcome sequence (the callback's writes take the first outcomes)
+static void acceptExhCase(long idx) {
+  Rng r(opts.seed, 1305, (u64)idx);
+  g_rng = &r; g_kernel = false;
+  long v = idx;
+  int origin = 1 + (int)(v % 2); v /= 2;
+  int act = (int)(v % NFRESH); v /= NFRESH;
+  int cls = (int)(v % 3); v /= 3;
+  decodePlan(v, 1, g_plan);
+  hist.addf("%s client, the callback does: %s, size-class %d, plan:", origin == 1 ? "accepted" : "connected", FNAME[act], cls); for (size_t i = 0; i < g_plan.n; ++i) hist.addf(" %s", ONAME[g_plan[i]]); hist.add("\n");
+  g_roundCap = 4000 + 200 * (long)g_plan.n;
+  beginWorld(0);
+  Cm* m = freshPhase(r, origin, act, pickSize(r, cls), pickSize(r, cls));
+  freshFollowUp(r, m, cls);
+  int writes = 0, maxWrites = (int)g_plan.n + 3;
+  while (g_planPos < g_plan.n && writes < maxWrites && !m->removed) {
+    long size = pickSize(r, cls);
+    int venue = (int)r.below(4); if (venue > V_ONWRITE) venue = V_OUT;
+    if (venue == V_ONWRITE && m->backlog() == 0) venue = V_OUT;
+    if (venue == V_ONREAD && m->suspended) venue = V_OUT;
+    Op op = { K_WRITE, m->id, size, r.chance(2, 3) ? 1 : 0 };
+    if (venue == V_OUT) execOp(m, op);
+    else if (venue == V_ONREAD) { m->qRead.push(op); peerSend(m, 1 + (long)r.below(16)); }
+    else m->qWrite.push(op);
+    ++writes;
+    if (!m->removed && r.chance(3, 20) && !m->suspended) { Op sp = { K_SUSPEND, m->id, 0, 0 }; execOp(m, sp); }
+    else if (!m->removed && m->suspended && r.chance(1, 2)) { Op sp = { K_RESUME, m->id, 0, 0 }; execOp(m, sp); }
+    if (venue != V_OUT || r.chance(7, 10)) pump();
+  }
+  for (int extra = 0; g_planPos < g_plan.n && !m->removed && extra < 2 * (int)g_plan.n + 6; ++extra) {
+    Op op = { K_WRITE, m->id, pickSize(r, cls), 1 }; execOp(m, op); pump(); cnt("plan_tail_writes");
+  }
+  if (g_planPos >= g_plan.n) cnt("accept_plans_fully_consumed");
+  u64 fp = mix(g_fp, (u64)idx);
+  bool nontrivial = g_nonfull > 0 || act != F_NONE;
+  endWorld(r);
+  if (idx % 397 == 0) sample("%s", hist.c());
+  endCase(fp, nontrivial);
+}
+
 // ---------------------------------------------------------------- random long plans, several clients
-static void randCase(long idx, bool kernel) {
-  Rng r(opts.seed, kernel ? 1304 : 1303, (u64)idx);
+// fresh: client 0 comes out of a listener / an establisher and its accept / connect callback acts on it (accept-rand, accept-kernel); the others are pair clients
+static void randCase(long idx, bool kernel, bool fresh = false) {
+  Rng r(opts.seed, fresh ? (kernel ? 1307 : 1306) : (kernel ? 1304 : 1303), (u64)idx);
   g_rng = &r; g_kernel = kernel;
   g_plan.clear();
   if (!kernel) {
@@ -718,7 +765,17 @@ static void randCase(long idx, bool kernel) {
   hist.addf(kernel ? "kernel mode (SO_SNDBUF minimal, slow reader)\n" : "plan:"); for (size_t i = 0; i < g_plan.n; ++i) hist.addf(" %s", ONAME[g_plan[i]]); hist.add("\n");
   int ncl = r.chance(1, 2) ? 1 : r.chance(7, 10) ? 2 : 3;
   g_roundCap = kernel ? 400000 : 20000;
-  beginWorld(ncl);
+  beginWorld(fresh ? 0 : ncl);
+  if (fresh) {
+    static const long FS[] = { 1, 7, 512, 4096, 65536, 300000 }, FK[] = { 20000, 65536, 150000, 300000 };   // kernel mode: larger than the (minimal) socket buffer
+    int origin = 1 + (int)(idx % 2), act = r.chance(1, 8) ? F_NONE : 1 + (int)r.below(NFRESH - 1);
+    long s0 = kernel ? FK[r.below(4)] : FS[r.below(6)], s1 = kernel ? FK[r.below(4)] : FS[r.below(6)];
+    if (r.chance(1, 3)) s0 = 1 + (long)r.below((u64)s0);
+    hist.addf("client0 is %s, the callback does: %s\n", origin == 1 ? "accepted" : "connected", FNAME[act]);
+    Cm* m = freshPhase(r, origin, act, s0, s1);
+    for (int i = 1; i < ncl; ++i) addClient(i);
+    if (r.chance(1, 2)) freshFollowUp(r, m, -1);
+  }
   int steps = 8 + (int)r.below(33);
   static const long SZ[] = { 1, 7, 512, 4096, 65536, 300000 };
   u32 wWrite = 4 + (u32)r.below(6), wSusp = (u32)r.below(4), wPeer = (u32)r.below(4), wSkip = (u32)r.below(2);
@@ -757,6 +814,7 @@ static void randCase(long idx, bool kernel) {
   }
   u64 fp = mix(g_fp, (u64)ncl);
   bool nontrivial = g_nonfull > 0 && g_drains > 0;
+  if (fresh) fp = mix(fp, 77);
   endWorld(r);
   if (idx % 211 == 0) sample("%s", hist.n > 1800 ? "(long history omitted)" : hist.c());
   endCase(fp, nontrivial);
@@ -784,7 +842,15 @@ int main(int argc, char** argv) {
   } else if (!strcmp(md, "rand") || !strcmp(md, "kernel")) {
     bool kernel = !strcmp(md, "kernel");
     for (long idx = opts.start; idx < opts.start + opts.cases; ++idx) { if (!mine(idx)) continue; beginCase(idx); randCase(idx, kernel); }
+  } else if (!strcmp(md, "accept-exh")) {
+    long total = 2L * NFRESH * 3 * pow5sum(1, L);
+    long lo = opts.cases < 0 ? 0 : opts.start, hi = opts.cases < 0 ? total : opts.start + opts.cases;
+    for (long idx = lo; idx < hi; ++idx) { if (!mine(idx)) continue; beginCase(idx); acceptExhCase(idx); }
+  } else if (!strcmp(md, "accept-rand") || !strcmp(md, "accept-kernel")) {
+    bool kernel = !strcmp(md, "accept-kernel");
+    for (long idx = opts.start; idx < opts.start + opts.cases; ++idx) { if (!mine(idx)) continue; beginCase(idx); randCase(idx, kernel, true); }
   } else harnessBug("unknown mode %s", md);
+  if (g_rawListen >= 0) { close(g_rawListen); g_rawListen = -1; }
   free(g_tmp);
   leakCheck("Server/leak");
   finish();
